@@ -253,7 +253,43 @@ theorem C03_parse_recipe_panic_only_from_analysis_partial (env : Env) (input : S
   unfold parseRecipe
   simp only [C03_parse_events_no_panic_partial env.cs env.ext input hadj]
 
+/-- the splitter hands out ADJACENT tokens: every block of a lexed token stream is a contiguous
+    piece of it (empty lines and trailing newlines are dropped between blocks, never inside) -/
+theorem C03_blocks_adjacent (cs : CharSpec) (off : Nat) (s : List Char) (fuel : Nat) :
+    ∀ b ∈ allBlocks fuel (lexFrom cs off s), ∃ o, Chain o b := by
+  intro b hb
+  obtain ⟨o, ho⟩ := allBlocks_runAt fuel _ off ⟨lexFrom_chain cs off s, lexFrom_escapedOK cs off s⟩ b hb
+  exact ⟨o, ho.1⟩
+
+/-- **C03, `PullParser` run to completion, complete:** for EVERY input, `CharSpec` and extension
+    set, with or without front matter, the block splitter plus the block parsers reach no panic
+    site and no loop runs out of fuel. -/
+theorem C03_parse_events_no_panic (cs : CharSpec) (ext : Ext) (input : List Char) :
+    (pullEvents (α := α) cs ext input).2 = none :=
+  C03_parse_events_no_panic_partial cs ext input (fun off s => C03_blocks_adjacent cs off s _)
+
+/-- the panic flag of `parse` can only come from the analysis pass -/
+theorem C03_parse_recipe_panic_only_from_analysis (env : Env) (input : Str) :
+    (parseRecipe (α := α) env input).panic =
+      (parseEvents (α := α) env input (pullEvents (α := α) env.cs env.ext input).1.toList).panic :=
+  C03_parse_recipe_panic_only_from_analysis_partial env input (fun off s => C03_blocks_adjacent env.cs off s _)
+
 end blockParser
+
+/-- `C03_statement` is reduced to the analysis pass (`parseEvents`, the `RecipeCollector`) not
+    panicking on the event streams the pull parsers produce; the whole parser half is proved. -/
+theorem C03_statement_iff_analysis_no_panic :
+    C03_statement ↔ ∀ (env : Env) (input : Str),
+      (parseEvents (α := Rat) env input (pullEvents (α := Rat) env.cs env.ext input).1.toList).panic = none ∧
+      (parseEvents (α := Rat) env input (pullMetaEvents (α := Rat) env.cs env.ext input).1.toList).panic = none := by
+  unfold C03_statement
+  constructor
+  · intro h env input
+    have := h env input
+    rwa [C03_parse_recipe_panic_only_from_analysis, C03_parse_metadata_panic_only_from_analysis] at this
+  · intro h env input
+    rw [C03_parse_recipe_panic_only_from_analysis, C03_parse_metadata_panic_only_from_analysis]
+    exact h env input
 
 /-! non-vacuity: the tokens of `@a{1}` satisfy the hypotheses of `C03_block_no_panic` -/
 example : let b : List Tok := [⟨.at, ['@'], 0⟩, ⟨.word, ['a'], 1⟩, ⟨.openBrace, ['{'], 2⟩, ⟨.int, ['1'], 3⟩,
